@@ -3,6 +3,7 @@ import GtfsVerif.Gen.Columns
 import GtfsVerif.Gen.FileTable
 import GtfsVerif.Lemmas.CsvRT
 import GtfsVerif.Lemmas.Decimal
+import GtfsVerif.Lemmas.Float
 /-! # C01 — static parse transcribes every valid row faithfully, whatever the presentation
 
 Model: `Gtfs.Csv.readFile` (byte-level reader incl. BOM), `Gtfs.Static.parse` and the ten row
@@ -469,5 +470,51 @@ theorem C01_calendar_row_rejected (hdr row : List Str) (m : List (Str × Service
   · simp [h]
   · cases Civil.parseDate8 (optRead hdr row c_start_date) <;> simp [h]
   · cases Civil.parseDate8 (optRead hdr row c_start_date) <;> cases Civil.parseDate8 (optRead hdr row c_end_date) <;> simp [h]
+
+/-! ## decimal numbers exactly
+
+The model takes the float of a cell from the harness (`Env.floatOf`, computed with the same library call
+the parser makes); `Float.certify` is run on every such answer, so what the correspondence compares the
+implementation with is a *certified* correctly rounded value, not strconv's word. -/
+
+/-- a decimal whose digits are all zero is exactly `+0` or `-0`, by its sign -/
+theorem C01_float_zero (neg : Bool) (e : Int) (bits : Option Nat) :
+    Float.nearest { neg := neg, mant := 0, exp10 := e } bits = (bits == some (if neg then 2 ^ 63 else 0)) :=
+  Float.nearest_zero neg e bits
+
+/-- **correct rounding**: bits accepted for a non-zero decimal `±N·10^e` in the computed range decode to
+    `±M·2^E` with the same sign and `(2M−1)·2^(E−1) ≤ N·10^e ≤ (2M+1)·2^(E−1)` – at most half a unit in the last
+    place away – with equality only for even `M` (ties to even); comparisons are exact (`cmpDecBin_lt/eq/gt`) -/
+theorem C01_float_within_half_ulp (d : Float.Dec) (b : Nat) (v : Float.Bin) (hm : d.mant ≠ 0)
+    (hr1 : ¬ ((Float.decLen d.mant : Int) + d.exp10 > 311)) (hr2 : ¬ ((Float.decLen d.mant : Int) + d.exp10 < -330))
+    (hd : Float.decode b = some v) (h : Float.nearest d (some b) = true) :
+    v.neg = d.neg ∧
+    (Float.cmpDecBin d.mant d.exp10 (2 * v.mant + 1) (v.exp2 - 1) = .lt ∨
+      (Float.cmpDecBin d.mant d.exp10 (2 * v.mant + 1) (v.exp2 - 1) = .eq ∧ v.mant % 2 = 0)) ∧
+    (v.mant ≠ 0 → ¬ (v.mant = 2 ^ 52 ∧ v.biased > 1) →
+      (Float.cmpDecBin d.mant d.exp10 (2 * v.mant - 1) (v.exp2 - 1) = .gt ∨
+        (Float.cmpDecBin d.mant d.exp10 (2 * v.mant - 1) (v.exp2 - 1) = .eq ∧ v.mant % 2 = 0))) :=
+  Float.nearest_window d b v hm hr1 hr2 hd h
+
+/-- sign, biased exponent and significand – what the certificate looks at – determine all 64 bits -/
+theorem C01_float_bits_determined (b1 b2 : Nat) (h1 : b1 < 2 ^ 64) (h2 : b2 < 2 ^ 64) (v : Float.Bin)
+    (e1 : Float.decode b1 = some v) (e2 : Float.decode b2 = some v) : b1 = b2 :=
+  Float.decode_injective b1 b2 h1 h2 v e1 e2
+
+set_option maxRecDepth 4000 in
+/-- non-vacuity: `40.7128` and `-74.0060` with their binary64 bits are accepted, the neighbouring patterns are
+    not; `9007199254740993` (= 2^53 + 1, a tie) goes to the even neighbour 2^53; the largest finite value is
+    accepted just below the overflow threshold and a range error is demanded at it -/
+example :
+    Float.certify [52, 48, 46, 55, 49, 50, 56] (some 0x40445B3D07C84B5E) = some true ∧
+    Float.certify [52, 48, 46, 55, 49, 50, 56] (some 0x40445B3D07C84B5F) = some false ∧
+    Float.certify [52, 48, 46, 55, 49, 50, 56] (some 0x40445B3D07C84B5D) = some false ∧
+    Float.certify [45, 55, 52, 46, 48, 48, 54, 48] (some 0xC05280624DD2F1AA) = some true ∧
+    Float.certify [57, 48, 48, 55, 49, 57, 57, 50, 53, 52, 55, 52, 48, 57, 57, 51] (some 0x4340000000000000) = some true ∧
+    Float.certify [57, 48, 48, 55, 49, 57, 57, 50, 53, 52, 55, 52, 48, 57, 57, 51] (some 0x4340000000000001) = some false ∧
+    Float.certify [49, 101, 51, 48, 57] none = some true ∧
+    Float.certify [49, 101, 51, 48, 56] none = some false ∧
+    Float.certify [105, 110, 102] (some 0x7FF0000000000000) = none := by
+  refine ⟨?_, ?_, ?_, ?_, ?_, ?_, ?_, ?_, ?_⟩ <;> decide
 
 end Gtfs.Static
